@@ -21,66 +21,121 @@ func theScanner() *pgdump.SecretScanner {
 	return scanner
 }
 
-func init() {
-	// secretscan: args = token(hex), dump.
-	// Phase 1 establishes the detector hypothesis of the model on this very case: for every cell text of at least
-	// 8 bytes the real ScanString reports something iff the text contains the planted token.
-	// Phase 2 runs ScanDumpResult and prints the coordinates of the findings whose Raw is the token, in the order reported.
-	core.Register("secretscan", func(args []string) string {
-		tok := string(core.Unhex(args[0]))
-		dump := parseDump(args[1])
-		// args[2] (optional): number of leading context bytes of the planted text (keyword-context credentials:
-		// "HEROKU_API_KEY=<uuid>" is planted, the detector reports the uuid)
-		raw := tok
-		if len(args) > 2 {
-			raw = tok[core.Atoi(args[2]):]
+// containsFold: the keyword pre-filter of Spec.Search.keywordPass (as is, or ignoring ASCII case)
+func keywordIn(text, kw string) bool {
+	lower := func(s string) string {
+		b := []byte(s)
+		for i, c := range b {
+			if c >= 'A' && c <= 'Z' {
+				b[i] = c + 32
+			}
 		}
-		sc := theScanner()
-		for _, db := range dump.Databases {
-			for _, t := range db.Tables {
-				for _, row := range t.Rows {
-					for _, v := range row {
-						s := fmt.Sprintf("%v", v)
-						if len(s) < 8 {
-							continue
-						}
-						got := false
-						for _, r := range sc.ScanString(s) {
-							if string(r.Raw) == raw {
-								got = true
-							} else {
-								return "detector-hypothesis-failed:other-raw:" + hexs(s)
-							}
-						}
-						if got != strings.Contains(s, tok) {
-							return "detector-hypothesis-failed:" + hexs(s)
-						}
-					}
+		return string(b)
+	}
+	return strings.Contains(text, kw) || strings.Contains(lower(text), lower(kw))
+}
+
+type cellRef struct {
+	db, table, col string
+	row            int
+	text           string
+}
+
+// cellsInOrder lists the cells of the dump in the specified order (database, table, row, column order of
+// Spec.Search.colOrder) with their specified text (Spec.SearchB.cellTextS).
+func cellsInOrder(dump *pgdump.DumpResult) []cellRef {
+	var out []cellRef
+	for _, db := range dump.Databases {
+		for _, t := range db.Tables {
+			for i, row := range t.Rows {
+				for _, c := range specColOrder(t.Columns, row) {
+					out = append(out, cellRef{db.Name, t.Name, c, i, specText(row[c])})
 				}
 			}
 		}
-		seen := map[string]bool{}
-		var out []string
-		for _, f := range sc.ScanDumpResult(dump) {
-			if f.Raw != raw {
-				continue
-			}
-			c := fmt.Sprintf("%s/%s/%d/%s", hexs(f.Database), hexs(f.Table), f.RowIndex, hexs(f.Column))
-			if !seen[c] {
-				seen[c] = true
-				out = append(out, c)
+	}
+	return out
+}
+
+func secretHandler(args []string) string {
+	// args = needle(hex), dump, raw(hex, or "-" = the detector reports nothing on a text holding the needle), keyword(hex)
+	//
+	// The Lean side instantiates the detector parameter of the C15 theorems with a stand-in: keyword `keyword`,
+	// `fromData text` = [raw] if the needle occurs in the text (and raw is not "-"), else nothing.
+	// Phase 1 checks that instance against the real scanner ON EVERY CELL TEXT OF THIS CASE (the hypotheses of
+	// Props.C15.C15_secret are about the cell's own text, nothing else): the real ScanString(text) reports exactly what
+	// Spec.Search.scanText [stand-in] text says.
+	// Phase 2 checks Props.C15.C15_secret_exact on the real scanner with ALL its detectors: ScanDumpResult = the
+	// concatenation, in cell order, over the cells of at least 8 bytes, of ScanString(cell text) with the cell's coordinates.
+	// Then the findings are printed in the order reported (coordinates=raw, repeats of one coordinate/raw pair once).
+	needle := string(core.Unhex(args[0]))
+	dump := parseDump(args[1])
+	raw, hasRaw := "", false
+	if len(args) > 2 && args[2] != "-" {
+		raw, hasRaw = string(core.Unhex(args[2])), true
+	}
+	kw := needle
+	if len(args) > 3 {
+		kw = string(core.Unhex(args[3]))
+	}
+	sc := theScanner()
+	cells := cellsInOrder(dump)
+	type fnd struct{ coord, raw, det string }
+	var want []fnd
+	for _, c := range cells {
+		if len(c.text) < 8 {
+			continue
+		}
+		expect := hasRaw && keywordIn(c.text, kw) && strings.Contains(c.text, needle)
+		got := false
+		for _, r := range sc.ScanString(c.text) {
+			want = append(want, fnd{fmt.Sprintf("%s/%s/%d/%s", hexs(c.db), hexs(c.table), c.row, hexs(c.col)), string(r.Raw), r.DetectorType.String()})
+			if expect && string(r.Raw) == raw {
+				got = true
+			} else {
+				return "detector-hypothesis-failed:other-raw:" + hexs(string(r.Raw)) + ":in:" + hexs(c.text)
 			}
 		}
-		// in the order reported (first occurrence of every coordinate)
-		return joinS(out, ";")
-	})
+		if got != expect {
+			return "detector-hypothesis-failed:" + hexs(c.text)
+		}
+	}
+	findings := sc.ScanDumpResult(dump)
+	if len(findings) != len(want) {
+		return fmt.Sprintf("exactness-failed:%d-findings-for-%d-per-cell-results", len(findings), len(want))
+	}
+	seen := map[string]bool{}
+	var out []string
+	for i, f := range findings {
+		c := fmt.Sprintf("%s/%s/%d/%s", hexs(f.Database), hexs(f.Table), f.RowIndex, hexs(f.Column))
+		if c != want[i].coord || f.Raw != want[i].raw || f.DetectorName != want[i].det {
+			return fmt.Sprintf("exactness-failed:finding-%d:%s=%s", i, c, hexs(f.Raw))
+		}
+		k := c + "=" + hexs(f.Raw)
+		if !seen[k] {
+			seen[k] = true
+			out = append(out, k)
+		}
+	}
+	return joinS(out, ";")
 }
 
 func init() {
-	// cellfmt: args = value; the text scanTable scans (fmt.Sprintf("%v", value)), as hex
-	core.Register("cellfmt", func(args []string) string {
+	core.Register("secretscan", secretHandler)
+	// secretbytes: the same on dumps that hold []byte values (token planted in a []byte, at any depth)
+	core.Register("secretbytes", secretHandler)
+}
+
+func init() {
+	// cellfmt: args = value; fmt.Sprintf("%v", value), as hex — the library call whose result is the text scanTable
+	// scans (values without []byte; Spec.Search.fmtV)
+	h := func(args []string) string {
 		return hexs(fmt.Sprintf("%v", parseVal(args[0])))
-	})
+	}
+	core.Register("cellfmt", h)
+	// cellfmtbytes: the same library call on values that hold []byte (printed as decimal numbers:
+	// Model.SearchB.fmtVOrig, the text the scan looked at before fix search/04)
+	core.Register("cellfmtbytes", h)
 }
 
 func init() {
@@ -106,6 +161,44 @@ func init() {
 			out = append(out, c)
 		}
 		sort.Strings(out)
+		return joinS(out, ";")
+	})
+}
+
+// fillerText returns exactly n bytes of the filler text
+func fillerText(n int) string {
+	const unit = "lorem ipsum dolor sit amet "
+	if n <= 0 {
+		return ""
+	}
+	return strings.Repeat(unit, n/len(unit)+1)[:n]
+}
+
+func init() {
+	// secretedge: args = planted text(hex), p, tail.  One table, one row, one long text cell
+	//   filler[0:p-1] " " planted [" " filler[0:tail-1]]
+	// so the planted text starts at byte offset p of the cell (p swept across every offset around 1, 2, 4, 8, 16 and 64 KiB:
+	// a scan that works through a long cell in windows must not lose or truncate a credential that straddles a window edge).
+	// Prints every finding of ScanDumpResult as coordinates=raw, repeats of one pair once.
+	core.Register("secretedge", func(args []string) string {
+		planted := string(core.Unhex(args[0]))
+		p, tail := core.Atoi(args[1]), core.Atoi(args[2])
+		cell := fillerText(p-1) + " " + planted
+		if tail > 0 {
+			cell += " " + fillerText(tail-1)
+		}
+		dump := &pgdump.DumpResult{Databases: []pgdump.DatabaseDump{{Name: "d", Tables: []pgdump.TableDump{{Name: "t",
+			Columns: []pgdump.ColumnInfo{{Name: "id"}, {Name: "body"}},
+			Rows:    []map[string]interface{}{{"id": int32(1), "body": cell}}}}}}}
+		seen := map[string]bool{}
+		var out []string
+		for _, f := range theScanner().ScanDumpResult(dump) {
+			k := fmt.Sprintf("%s/%s/%d/%s=%s", hexs(f.Database), hexs(f.Table), f.RowIndex, hexs(f.Column), hexs(f.Raw))
+			if !seen[k] {
+				seen[k] = true
+				out = append(out, k)
+			}
+		}
 		return joinS(out, ";")
 	})
 }
